@@ -104,41 +104,61 @@ func c03AfterOneP(c *fw.Ctx, cs c03AfterCase, prop string) {
 		// --- connections B and C, read alternately
 		type side struct {
 			tag  byte
-			want []byte
+			want [][]byte // two messages per connection
 			conn *websocket.Conn
-			r    io.Reader
-			got  []byte
-			done bool
+			got  [][]byte
 			err  error
 		}
 		var sides []*side
 		for _, tag := range []byte{'B', 'C'} {
-			want := mkMsg(tag, 2500+int(tag))
-			t := mxNewTransport(frames(want))
-			sides = append(sides, &side{tag: tag, want: want, conn: mxConn(t, cs.Client, cs.Comp)})
+			w1, w2 := mkMsg(tag, 2500+int(tag)), mkMsg(tag+2, 1800+int(tag))
+			dd := &deflate.Deflater{NoContextTakeover: cs.Comp == "no-takeover"}
+			two := func(payload []byte) []byte {
+				w := dd.Message(payload)
+				h := len(w) / 2
+				return mxEncode(frame.Frame{Fin: false, Rsv1: true, Opcode: frame.OpBinary, Masked: masked, Key: [4]byte{1, 2, 3, 4}, Payload: w[:h]},
+					frame.Frame{Fin: true, Opcode: frame.OpCont, Masked: masked, Key: [4]byte{5, 6, 7, 8}, Payload: w[h:]})
+			}
+			t := mxNewTransport(append(two(w1), two(w2)...))
+			sides = append(sides, &side{tag: tag, want: [][]byte{w1, w2}, conn: mxConn(t, cs.Client, cs.Comp)})
+		}
+		b, cc := sides[0], sides[1]
+		buf := make([]byte, 97)
+		readAll := func(s *side) {
+			if s.err != nil {
+				return
+			}
+			_, r, err := s.conn.Reader(ctx)
+			if err != nil {
+				s.err = err
+				return
+			}
+			data, err := io.ReadAll(r)
+			s.got = append(s.got, data)
+			s.err = err
 		}
 		pan := fw.Recover(func() {
-			for _, s := range sides {
-				_, s.r, s.err = s.conn.Reader(ctx)
-			}
-			buf := make([]byte, 97)
-			for open := 2; open > 0; {
-				open = 0
-				for _, s := range sides {
-					if s.done || s.err != nil {
-						continue
-					}
-					n, err := s.r.Read(buf)
-					s.got = append(s.got, buf[:n]...)
-					if err == io.EOF {
-						s.done = true
-					} else if err != nil {
-						s.err = err
-					} else {
-						open++
-					}
+			// B's first message completely; C's first message opened and partly read; B's second
+			// message completely (B reuses whatever it keeps between messages while C is in the
+			// middle of one); the rest of C's first message; C's second message
+			readAll(b)
+			var rc io.Reader
+			var part []byte
+			_, rc, cc.err = cc.conn.Reader(ctx)
+			if cc.err == nil {
+				n, err := rc.Read(buf)
+				part = append(part, buf[:n]...)
+				if err != nil {
+					cc.err = err
 				}
 			}
+			readAll(b)
+			if cc.err == nil {
+				rest, err := io.ReadAll(rc)
+				cc.got = append(cc.got, append(part, rest...))
+				cc.err = err
+			}
+			readAll(cc)
 		})
 		for _, s := range sides {
 			s.conn.CloseNow()
@@ -152,8 +172,9 @@ func c03AfterOneP(c *fw.Ctx, cs c03AfterCase, prop string) {
 				c.EngineError(desc + ": hang guard fired")
 				return
 			}
-			if s.err != nil || !bytes.Equal(s.got, s.want) {
-				c.Violate(prop+"/valid-stream-not-delivered/after-failure-of-another-connection/"+cs.Failure, fmt.Sprintf("%s, round %d: connection %c was sent a valid %d-byte compressed message; it read %d bytes (identical prefix %d), err=%v", desc, round, s.tag, len(s.want), len(s.got), c08CommonPrefix(s.got, s.want), s.err), cs)
+			ok := s.err == nil && len(s.got) == 2 && bytes.Equal(s.got[0], s.want[0]) && bytes.Equal(s.got[1], s.want[1])
+			if !ok {
+				c.Violate(prop+"/valid-stream-not-delivered/after-failure-of-another-connection/"+cs.Failure, fmt.Sprintf("%s, round %d: connection %c was sent two valid compressed messages (%d and %d bytes) and was read while the other connection had a message open; it delivered %d message(s), err=%v", desc, round, s.tag, len(s.want[0]), len(s.want[1]), len(s.got), s.err), cs)
 				return
 			}
 		}
@@ -176,7 +197,7 @@ func c03AfterCases() []c03AfterCase {
 }
 
 func init() {
-	for _, prop := range []string{"C03", "C07"} {
+	for _, prop := range []string{"C03", "C07", "C14"} {
 		c03AfterRegister(prop)
 	}
 }
